@@ -91,6 +91,9 @@ PROPS["C09"] = {
          "checks": {"quick": 2000, "thorough": 50000}, "shards": {"quick": 1, "thorough": 2}},
         {"name": "C09Stall", "pkg": INT, "test": "TestVerifC09Stall", "kind": "rapid",
          "checks": {"quick": 150, "thorough": 1500}, "shards": {"quick": 2, "thorough": 8}},
+        # arbitrary bytes x read partition against a reference parser (coverage-guided)
+        {"name": "C09Fuzz", "pkg": INT, "test": "FuzzVerifC09Stream", "kind": "fuzz", "fuzz_target": "FuzzVerifC09Stream",
+         "only_tiers": ["thorough"], "fuzztime": {"thorough": "60s"}, "workers": 16, "timeout": {"thorough": 600}},
     ],
 }
 
